@@ -847,6 +847,11 @@ func (w *World) checkNodeStatus(cur *networkv1beta1.Node) {
 			fp := "bound-address-reclaimed-early"
 			if pr.ip.PodUID == "" {
 				fp += "@binding-without-uid"
+			} else if pod := w.truthPod(strings.TrimPrefix(pr.ip.PodID, ns+"/")); pod != nil && string(pod.UID) != pr.ip.PodUID {
+				// K8: a new pod of the same name took the binding of its vanished predecessor over
+				// (by name), then the controller dropped it: the predecessor's teardown was never
+				// waited for
+				fp += "@inherited-by-namesake"
 			}
 			w.run.Violate("C03", "reclaim-safety", fp, "address %s bound to %s (uid %q) was %s in a status write although %s", ip, pr.ip.PodID, pr.ip.PodUID, what, why)
 		}
